@@ -27,7 +27,8 @@ Print Assumptions C08_model_uses_regenerated_kernel.
    part_start_last, drop_block, parts) returns exactly the columns the key does not address, in order,
    each with its dtype, rows treated by the same row function -- whatever the partition into 1-D / 2-D blocks. *)
 Theorem C08_drop_any_layout : forall (A : Type) (t : tb A) (ck : option ckey) (rowf : list A -> list A),
-  wf_tb t -> t <> [] -> (match ck with Some k => walk_dom k = true | None => True end) ->
+  wf_tb t -> t <> [] ->
+  (match ck with Some k => walk_dom k (Z.of_nat (length (flatten t))) = true | None => True end) ->
   res_map flatten (M_drop_blocks t ck rowf) =
   res_map (map (fun c => (fst c, rowf (snd c)))) (S_drop_columns (flatten t) ck).
 Proof. exact @drop_blocks_refines. Qed.
@@ -35,7 +36,7 @@ Print Assumptions C08_drop_any_layout.
 
 (* MASK, every block layout: Boolean columns, `on` exactly at the addressed positions. *)
 Theorem C08_mask_any_layout : forall (A : Type) (on off : list A) (t : tb A) (k : ckey),
-  wf_tb t -> t <> [] -> walk_dom k = true ->
+  wf_tb t -> t <> [] -> walk_dom k (Z.of_nat (length (flatten t))) = true ->
   res_map flatten (M_mask_blocks t k on off) = S_mask_columns (flatten t) k on off.
 Proof. exact @mask_blocks_refines. Qed.
 Print Assumptions C08_mask_any_layout.
@@ -63,7 +64,7 @@ Print Assumptions C08_set_exact.
    column keeps dtype and cells (conv_same: converting to the dtype a column already has is the identity). *)
 Theorem C08_astype_any_layout : forall (A : Type) (dt : dtype) (conv : dtype -> list A -> list A) (int_key : bool),
   (forall c, conv dt c = c) ->
-  forall (t : tb A) (k : ckey), wf_tb t -> t <> [] -> walk_dom k = true ->
+  forall (t : tb A) (k : ckey), wf_tb t -> t <> [] -> walk_dom k (Z.of_nat (length (flatten t))) = true ->
   forall ps, key_positions k (Z.of_nat (length (flatten t))) = Ok ps ->
   res_map flatten (M_astype_blocks dt conv int_key t k) = S_astype_columns (flatten t) k dt conv.
 Proof. exact @astype_blocks_refines. Qed.
@@ -72,13 +73,15 @@ Print Assumptions C08_astype_any_layout.
 (* ASSIGN (by unit: element / tuple / array / aligned Series values), column part, every block layout: walking
    the columns in position order, exactly the addressed columns are replaced and they receive the value columns
    in order; every other column comes out identical, dtype included.  The key reaches the walk through
-   key_to_ascending_key (asc_key); is_slice = false only for an integer column key. *)
+   key_to_ascending_key (ascending_key: list or ndarray, Boolean arrays unchanged, negative positions normalised --
+   decisions regenerated from the source); is_slice = false only for an integer column key. *)
 Theorem C08_assign_unit_any_layout : forall (A : Type) (is_slice sliceable : bool) (newdt : dtype -> dtype)
-    (cells : Z -> list A -> list A) (t : tb A) (k : ckey) (ps : list Z),
-  wf_tb t -> t <> [] -> walk_dom k = true ->
+    (cells : Z -> list A -> list A) (t : tb A) (k : ckey) (as_array : bool) (ps : list Z),
+  wf_tb t -> t <> [] -> walk_dom k (Z.of_nat (length (flatten t))) = true ->
   (is_slice = true \/ exists i, k = CInt i) ->
   key_positions k (Z.of_nat (length (flatten t))) = Ok ps ->
-  res_map flatten (M_assign_unit_blocks is_slice sliceable newdt cells t (asc_key k (Z.of_nat (length (flatten t))))) =
+  res_map flatten (M_assign_unit_blocks is_slice sliceable newdt cells t
+                     (ascending_key k (Z.of_nat (length (flatten t))) as_array)) =
   Ok (S_assign_from ps (if is_slice && sliceable then 1 else 0)
                     (fun v c => (newdt (fst c), cells v (snd c))) 0 0 (flatten t)).
 Proof. exact @assign_unit_blocks_refines. Qed.
@@ -102,3 +105,11 @@ Theorem C08_insert_any_layout : forall (A : Type) (t ins : tb A) (key : Z), wf_t
   res_map flatten (M_insert_blocks t key ins) = Ok (S_insert_at (flatten t) key (flatten ins)).
 Proof. exact @insert_blocks_refines. Qed.
 Print Assumptions C08_insert_any_layout.
+
+(* the key conversions of the models follow the REGENERATED decisions of the source: both the walk's sorted() and
+   key_to_ascending_key normalise negative positions before sorting and pass Boolean arrays through unchanged
+   (reverting fix c80a0ec or dc30af2 flips a constant of Gen/Gen_c08.v and breaks this theorem and the five above) *)
+Theorem C08_keys_made_ascending_by_position : forall (k : ckey) (n : Z) (as_array : bool),
+  asc_key k n = asc_key_with true k n /\ ascending_key k n as_array = asc_key_with true k n.
+Proof. exact (fun k n a => conj (asc_key_normalises k n) (ascending_key_normalises k n a)). Qed.
+Print Assumptions C08_keys_made_ascending_by_position.
